@@ -15,6 +15,9 @@ import time
 
 VERIF = os.path.dirname(os.path.dirname(os.path.abspath(__file__)))
 SEEDED = os.path.join(VERIF, "seeded")
+REPO = "/repo"
+CHECK_VERIF = VERIF
+ENV = dict(os.environ)
 
 
 def sh(cmd, **kw):
@@ -22,7 +25,25 @@ def sh(cmd, **kw):
 
 
 def repo_clean():
-    return sh(["git", "-C", "/repo", "status", "--porcelain", "--untracked-files=no"]).stdout.strip() == ""
+    return sh(["git", "-C", REPO, "status", "--porcelain", "--untracked-files=no"]).stdout.strip() == ""
+
+
+def make_sandbox(path):
+    """A scratch worktree of /repo plus a scratch copy of /verif (with its own build directory), so that the
+    self-test can run while /repo itself is in use. Outside /repo and /verif; remove it when done
+    (git -C /repo worktree remove --force <path>/repo; rm -rf <path>)."""
+    global REPO, CHECK_VERIF, ENV
+    os.makedirs(path, exist_ok=True)
+    repo = os.path.join(path, "repo")
+    if not os.path.exists(repo):
+        r = sh(["git", "-C", "/repo", "worktree", "add", "--detach", repo, "HEAD"])
+        if r.returncode != 0:
+            raise SystemExit("cannot create scratch worktree: " + r.stderr)
+    verif = os.path.join(path, "verif")
+    sh(["rsync", "-a", "--delete", "--exclude", ".build", "--exclude", "replays", "--exclude", ".git", "--exclude", "harness/repo",
+        VERIF + "/", verif + "/"])
+    REPO, CHECK_VERIF = repo, verif
+    ENV = dict(os.environ, VERIF_REPO=repo)
 
 
 def main():
@@ -38,6 +59,8 @@ def main():
             tier = a.pop(0)
         elif x == "--also":
             also = a.pop(0).split(",")
+        elif x == "--sandbox":
+            make_sandbox(a.pop(0))
         elif x == "--dir":
             global SEEDED
             SEEDED = os.path.join(VERIF, a.pop(0))
@@ -55,7 +78,7 @@ def main():
         d = os.path.join(SEEDED, name)
         meta = json.load(open(os.path.join(d, "meta.json")))
         props = [meta["property"]] + [p for p in also if p != meta["property"]]
-        r = sh(["git", "-C", "/repo", "apply", os.path.join(d, "patch.diff")])
+        r = sh(["git", "-C", REPO, "apply", os.path.join(d, "patch.diff")])
         if r.returncode != 0:
             print(f"{name}: patch does not apply: {r.stderr.strip()[:200]}")
             results[name] = {"property": meta["property"], "error": "patch does not apply"}
@@ -63,7 +86,7 @@ def main():
         try:
             for prop in props:
                 t0 = time.time()
-                c = sh([os.path.join(VERIF, "check"), prop, "--tier", tier], cwd=VERIF)
+                c = sh([os.path.join(CHECK_VERIF, "check"), prop, "--tier", tier], cwd=CHECK_VERIF, env=ENV)
                 sigs = sorted({line.split("]")[1].split(":")[0].strip() for line in c.stdout.splitlines() if line.startswith("  [")})
                 caught = c.returncode == 1 and "VIOLATION property=" + prop in c.stdout
                 key = name if prop == meta["property"] else f"{name}@{prop}"
@@ -74,7 +97,7 @@ def main():
                     print("   " + "\n   ".join(c.stdout.splitlines()[-5:]))
         finally:
             json.dump(results, open(res_path, "w"), indent=1, sort_keys=True)
-            sh(["git", "-C", "/repo", "checkout", "--", "."])
+            sh(["git", "-C", REPO, "checkout", "--", "."])
             if not repo_clean():
                 print("ERROR: could not restore /repo")
                 return 2
